@@ -307,21 +307,51 @@ static ParametersSet build_comma(const std::vector<Parameter>& ps_list)
 }
 
 // ------------------------------------------------------------------ structural probe of the container
+typedef void (*progress_fp)(double);
+typedef bool (*cancel_fp)();
+
+// the C++ type a parameter holds: the one conversion that does not throw wrong_parameter_type_error
+template <class T> static bool converts_to(const Parameter& p)
+{
+    Parameter q = p;
+    try { (void)q.operator T(); return true; }
+    catch (const stichwort::wrong_parameter_type_error&) { return false; }
+    catch (...) { return false; }
+}
+
+// hasSameTypeAs() exists since repair F27: the harness must still build against a tree without it
+template <class P> static int same_type(const P& a, const P& b)
+{
+    if constexpr (requires { a.hasSameTypeAs(b); }) return a.hasSameTypeAs(b) ? 1 : 0;
+    else return -1;
+}
+
 static std::string type_and_repr(const Parameter& p)
 {
     static const Parameter refs[] = {
         Parameter::create("r", (IndexType)0), Parameter::create("r", (ScalarType)0), Parameter::create("r", (bool)false),
         Parameter::create("r", PassThru), Parameter::create("r", Brute), Parameter::create("r", Dense),
-        Parameter::create("r", HomogeneousCPUStrategy), Parameter::create("r", (void (*)(double))NULL),
-        Parameter::create("r", (bool (*)())NULL), Parameter::create("r", std::string("")),
+        Parameter::create("r", HomogeneousCPUStrategy), Parameter::create("r", (progress_fp)NULL),
+        Parameter::create("r", (cancel_fp)NULL), Parameter::create("r", std::string("")),
         Parameter::create("r", (float)0), Parameter::create("r", (long)0), Parameter::create("r", (unsigned)0),
         Parameter::create("r", (char)0), Parameter::create("r", (const char*)""), Parameter::create("r", (short)0),
         Parameter::create("r", (long double)0)};
     static const char* tags[] = {"I", "S", "B", "M", "N", "E", "C", "P", "X", "O0", "O1", "O2", "O3", "O4", "O5", "O6", "O7"};
+    const bool conv[] = {
+        converts_to<IndexType>(p), converts_to<ScalarType>(p), converts_to<bool>(p), converts_to<DimensionReductionMethod>(p),
+        converts_to<NeighborsMethod>(p), converts_to<EigenMethod>(p), converts_to<ComputationStrategy>(p),
+        converts_to<progress_fp>(p), converts_to<cancel_fp>(p), converts_to<std::string>(p), converts_to<float>(p),
+        converts_to<long>(p), converts_to<unsigned>(p), converts_to<char>(p), converts_to<const char*>(p),
+        converts_to<short>(p), converts_to<long double>(p)};
     std::string tag = "?";
     int hits = 0;
     for (size_t i = 0; i < sizeof(refs) / sizeof(refs[0]); i++)
-        if (p.hasSameTypeAs(refs[i])) { tag = tags[i]; hits++; }
+    {
+        if (conv[i]) { tag = tags[i]; hits++; }
+        // the two notions of type identity (getValue<T> and hasSameTypeAs) must agree
+        int same = same_type(p, refs[i]);
+        if (same >= 0 && (same == 1) != conv[i]) return std::string("?incoherent-") + tags[i] + ":" + p.repr();
+    }
     if (hits != 1) tag = "?";
     if (tag == "M")
     {
@@ -380,6 +410,19 @@ static void predicate_main(std::istringstream& in)
     else predicate_probe<ScalarType>(in, pred, nargs);
 }
 
+// checkTypes() exists since repair F27: the harness must still build against a tree without it
+template <class S> static std::string call_check_types(S& a, const S& d)
+{
+    if constexpr (requires { a.checkTypes(d); })
+    {
+        try { a.checkTypes(d); }
+        catch (const stichwort::wrong_parameter_type_error&) { return "wrong_type"; }
+        return "ok";
+    }
+    else
+        return "absent";
+}
+
 static void probe_main(std::istringstream& in)
 {
     std::vector<Parameter> la, ld;
@@ -412,9 +455,7 @@ static void probe_main(std::istringstream& in)
         try { A.check(); }
         catch (const stichwort::multiple_parameter_error&) { dup = true; }
         os << "dup=[" << (dup ? 1 : 0) << "];";
-        std::string ct = "ok";
-        try { A.checkTypes(D); }
-        catch (const stichwort::wrong_parameter_type_error&) { ct = "wrong_type"; }
+        std::string ct = call_check_types(A, D);
         os << "ct=[" << ct << "];";
         A.visit([&](const Parameter& p) { os << "m:" << p.name() << "=[" << type_and_repr(p) << "];"; });
         for (size_t i = 0; i < ids.size(); i++)
